@@ -1,5 +1,5 @@
 (* Lemmas_Narrow.v — facts about the character graph of the non-unicode build (C20). *)
-Require Import Observers Inst Lemmas_Tables.
+Require Import Observers Inst Lemmas_TabConv.
 Require Gen.
 Local Open Scope Z_scope.
 Lemma conv_narrow_table : conv_narrow_ok = true.
